@@ -180,10 +180,14 @@ class IdleMomentsGauge:
                     active_moments[q].append((m_id, False))
             else:
                 for op in moment:
+                    # Only a gate with a known unitary can be multiplied into the gauge: a measurement,
+                    # a channel, a reset or a parameterized gate closes the idle window like any other
+                    # operation the gauge cannot be merged into.
                     is_mergeable = (
                         len(op.qubits) == 1
                         and tags_to_ignore.isdisjoint(op.tags)
                         and op.gate is not None
+                        and protocols.has_unitary(op.gate)
                     )
                     for q in op.qubits:
                         active_moments[q].append((m_id, is_mergeable))
